@@ -37,7 +37,7 @@ use crate::{
     string::StaticJsStrings,
 };
 
-use boa_gc::{Finalize, Trace};
+use boa_gc::{Finalize, Trace, custom_trace};
 use icu_calendar::{Iso, preferences::CalendarAlgorithm};
 use icu_datetime::{
     DateTimeFormatter, DateTimeFormatterPreferences,
@@ -79,8 +79,7 @@ impl FormatTimeZone {
 }
 
 /// JavaScript `Intl.DateTimeFormat` object.
-#[derive(Debug, Clone, Trace, Finalize, JsData)]
-#[boa_gc(unsafe_empty_trace)] // Safety: No traceable types
+#[derive(Debug, Clone, Finalize, JsData)]
 #[allow(dead_code)]
 pub(crate) struct DateTimeFormat {
     locale: Locale,
@@ -95,6 +94,14 @@ pub(crate) struct DateTimeFormat {
     formatter: DateTimeFormatter<CompositeFieldSet>,
     bound_format: Option<JsFunction>,
     resolved_options: Option<JsObject>,
+}
+
+// SAFETY: `bound_format` and `resolved_options` are the only traceable fields.
+unsafe impl Trace for DateTimeFormat {
+    custom_trace!(this, mark, {
+        mark(&this.bound_format);
+        mark(&this.resolved_options);
+    });
 }
 
 impl Service for DateTimeFormat {
